@@ -121,28 +121,96 @@ def gen_case(rng, maxlen, root_user):
         mode0 |= 0o600
         if req["mode"] is not None and (req["size"] is not None):
             req["mode"] |= 0o600
-    return {"data": data, "mode0": mode0, "atime0": gen_time(rng), "mtime0": gen_time(rng), "op": op,
-            "by_handle": rng.random() < 0.5, "size": req["size"], "ids": req["ids"], "mode": req["mode"],
-            "times": req["times"]}
+    return gen_where(rng, {"data": data, "mode0": mode0, "atime0": gen_time(rng), "mtime0": gen_time(rng), "op": op,
+                           "by_handle": rng.random() < 0.5, "size": req["size"], "ids": req["ids"],
+                           "mode": req["mode"], "times": req["times"]})
+
+
+DECOY = {"data": b"decoy-" * 20, "mode": 0o640, "times": (111111, 222222)}
+
+
+def place(rig, root, case, name):
+    """Where the served file lives and how the client names it: absolute path without a cwd,
+    relative path after SFTPClient.chdir(), or absolute path while a cwd is set.  A same-named
+    decoy sits (or is absent) where a wrongly resolved name would land."""
+    where = case.get("where", "root")
+    sub = os.path.join(root, "sub")
+    os.makedirs(sub, exist_ok=True)
+    if where == "root":
+        want_cwd, path, rpath, decoy = None, os.path.join(root, name), "/" + name, os.path.join(sub, name)
+    elif where == "rel":
+        want_cwd, path, rpath, decoy = "/sub", os.path.join(sub, name), name, os.path.join(root, name)
+    else:   # "abs-cwd"
+        want_cwd, path, rpath, decoy = "/sub", os.path.join(root, name), "/" + name, os.path.join(sub, name)
+    if getattr(rig, "cwd", "?") != want_cwd:
+        rig.sftp.chdir(want_cwd)
+        rig.cwd = want_cwd
+    for q in (path, decoy):
+        if os.path.exists(q):
+            os.remove(q)
+    if case.get("decoy"):
+        with open(decoy, "wb") as fh:
+            fh.write(DECOY["data"])
+        os.chmod(decoy, DECOY["mode"])
+        os.utime(decoy, DECOY["times"])
+    if case.get("bytes_path"):
+        rpath = rpath.encode()
+    return path, rpath, decoy
+
+
+def decoy_state(case, decoy):
+    """None when the decoy is as it was left (present and untouched, or absent)."""
+    if not case.get("decoy"):
+        return "created" if os.path.exists(decoy) else None
+    if not os.path.exists(decoy):
+        return "removed"
+    st = os.stat(decoy)
+    with open(decoy, "rb") as fh:
+        data = fh.read()
+    if (data != DECOY["data"] or st.st_mode & 0o7777 != DECOY["mode"]
+            or (int(st.st_atime), int(st.st_mtime)) != DECOY["times"]):
+        return {"size": len(data), "mode": st.st_mode & 0o7777, "atime": int(st.st_atime), "mtime": int(st.st_mtime)}
+    return None
+
+
+def gen_where(rng, case):
+    case["where"] = rng.choice(["root", "root", "rel", "rel", "abs-cwd"])
+    case["decoy"] = rng.random() < 0.5
+    case["bytes_path"] = rng.random() < 0.15
+    return case
+
+
+def check_placement(ctx, case, obs):
+    """The request reached the file the client named (and only it) and did not raise."""
+    if obs.get("exc") is None and obs.get("decoy") is None:
+        return True
+    rel = case.get("where", "root") != "root"
+    ctx.fail("path-not-resolved-against-cwd" if rel else "request-raised-or-wrong-file",
+             "a chmod/chown/utime/truncate request on %s raised or changed another file than the one named "
+             "(relative names must be resolved against SFTPClient.chdir()'s directory, absolute ones not)"
+             % {"root": "an absolute path", "rel": "a relative path after chdir()",
+                "abs-cwd": "an absolute path while a cwd is set"}[case.get("where", "root")],
+             case=case, expected="request applied to the named file only",
+             observed={"exception": obs.get("exc"), "same-named file elsewhere": obs.get("decoy")})
+    return False
 
 
 def execute(rig, root, case, name="f"):
     """Prepare the file locally, issue the request through the real client, observe with os.stat."""
     from paramiko import SFTPAttributes
     from paramiko.sftp import CMD_SETSTAT, CMD_FSETSTAT
-    path = os.path.join(root, name)
-    if os.path.exists(path):
-        os.remove(path)
+    path, rpath, decoy = place(rig, root, case, name)
     with open(path, "wb") as fh:
         fh.write(case["data"])
     os.chmod(path, case["mode0"])
     os.utime(path, (case["atime0"], case["mtime0"]))
     st0 = os.stat(path)
     sftp = rig.sftp
-    rpath = "/" + name
     t_before = time.time()
-    fobj = sftp.open(rpath, "r+") if case["by_handle"] else None
+    exc = None
+    fobj = None
     try:
+        fobj = sftp.open(rpath, "r+") if case["by_handle"] else None
         op = case["op"]
         if op == "chmod":
             fobj.chmod(case["mode"]) if fobj else sftp.chmod(rpath, case["mode"])
@@ -165,21 +233,28 @@ def execute(rig, root, case, name="f"):
             if fobj:
                 sftp._request(CMD_FSETSTAT, fobj.handle, attr)
             else:
-                sftp._request(CMD_SETSTAT, rpath, attr)
-        st = os.stat(path)
+                sftp._request(CMD_SETSTAT, sftp._adjust_cwd(rpath), attr)
+    except Exception as e:  # noqa  (reported by check_placement)
+        exc = repr(e)
     finally:
+        st = os.stat(path)
         if fobj:
-            fobj.close()
+            try:
+                fobj.close()
+            except Exception:
+                pass
     t_after = time.time()
     with open(path, "rb") as fh:
         after = fh.read()
     return {"mode": st.st_mode & 0o7777, "uid": st.st_uid, "gid": st.st_gid, "atime": int(st.st_atime),
             "mtime": int(st.st_mtime), "data": after, "uid0": st0.st_uid, "gid0": st0.st_gid,
-            "t_before": t_before, "t_after": t_after}
+            "t_before": t_before, "t_after": t_after, "exc": exc, "decoy": decoy_state(case, decoy)}
 
 
 def oracle(ctx, case, obs):
     """The property stated directly over the observed file."""
+    if not check_placement(ctx, case, obs):
+        return
     d, n = case["data"], case["size"]
     show = {k: (v if k != "data" or len(v) <= 64 else {"len": len(v), "head": v[:16]}) for k, v in case.items()}
     if n is not None:
@@ -267,24 +342,24 @@ def gen_seq_case(rng, root_user):
                 size_now = max(size_now, off + len(blob))
             else:
                 steps.append({"kind": "touch", "times": (gen_time(rng), gen_time(rng))})
-    return {"seq": True, "data": data, "mode0": gen_mode(rng, False) | (0 if root_user else 0o600),
-            "atime0": gen_time(rng), "mtime0": gen_time(rng), "by_handle": by_handle, "steps": steps}
+    return gen_where(rng, {"seq": True, "data": data, "mode0": gen_mode(rng, False) | (0 if root_user else 0o600),
+                           "atime0": gen_time(rng), "mtime0": gen_time(rng), "by_handle": by_handle, "steps": steps})
 
 
 def execute_seq(rig, root, case, name="s"):
     """Run the steps; os.stat after each; final bytes."""
-    path = os.path.join(root, name)
-    if os.path.exists(path):
-        os.remove(path)
+    path, rpath, decoy = place(rig, root, case, name)
     with open(path, "wb") as fh:
         fh.write(case["data"])
     os.chmod(path, case["mode0"])
     os.utime(path, (case["atime0"], case["mtime0"]))
     st0 = os.stat(path)
-    sftp, rpath = rig.sftp, "/" + name
-    fobj = sftp.open(rpath, "r+") if case["by_handle"] else None
+    sftp = rig.sftp
     stats = []
+    exc = None
+    fobj = None
     try:
+        fobj = sftp.open(rpath, "r+") if case["by_handle"] else None
         for st in case["steps"]:
             t0 = time.time()
             k = st["kind"]
@@ -312,12 +387,18 @@ def execute_seq(rig, root, case, name="s"):
             s = os.stat(path)
             stats.append({"mode": s.st_mode & 0o7777, "uid": s.st_uid, "gid": s.st_gid, "atime": int(s.st_atime),
                           "mtime": int(s.st_mtime), "size": s.st_size, "t0": t0, "t1": time.time()})
+    except Exception as e:  # noqa  (reported by check_placement)
+        exc = "step %d: %r" % (len(stats), e)
     finally:
         if fobj:
-            fobj.close()
+            try:
+                fobj.close()
+            except Exception:
+                pass
     with open(path, "rb") as fh:
         after = fh.read()
-    return {"stats": stats, "data": after, "uid0": st0.st_uid, "gid0": st0.st_gid}
+    return {"stats": stats, "data": after, "uid0": st0.st_uid, "gid0": st0.st_gid, "exc": exc,
+            "decoy": decoy_state(case, decoy)}
 
 
 FIELDS = ("mode", "uid", "gid", "atime", "mtime", "size")
@@ -325,6 +406,8 @@ FIELDS = ("mode", "uid", "gid", "atime", "mtime", "size")
 
 def oracle_seq(ctx, case, obs):
     """Same effect as the corresponding sequence of os.* calls (simulated on a Python file record)."""
+    if not check_placement(ctx, case, obs):
+        return False
     cur = {"mode": case["mode0"], "uid": obs["uid0"], "gid": obs["gid0"], "atime": case["atime0"],
            "mtime": case["mtime0"], "data": bytes(case["data"])}
     for i, (st, ob) in enumerate(zip(case["steps"], obs["stats"])):
@@ -410,7 +493,9 @@ def run(ctx):
     ctx.rule = ("seeded generator: served file = random bytes (0..600 for model cases, up to 300 KB for oracle-only "
                 "cases), random permission bits and u32 times; (1) one request per case: chmod / chown (current ids) / "
                 "utime / truncate (targets smaller, equal, larger, 0) / combined flags, by path (SETSTAT) or by handle "
-                "(FSETSTAT) through the real SFTPClient/SFTPFile; (2) sequences of 2-4 requests on the same open "
+                "(FSETSTAT) through the real SFTPClient/SFTPFile, the file named by an absolute path, by a relative "
+                "path after SFTPClient.chdir(), or by an absolute path while a cwd is set (str or bytes), with a "
+                "same-named decoy present/absent where a wrongly resolved name would land; (2) sequences of 2-4 requests on the same open "
                 "handle / path with writes (through the handle or by another writer) and out-of-band os.utime calls "
                 "in between, os.stat after every step and the final bytes; a case is non-trivial when distinct and "
                 "at least one observable of the file changes")
